@@ -1,6 +1,7 @@
 // Mock Arduino core API (signatures only) used to type-check and parse emitted firmware with
 // clang++ --target=avr.  Written from the Arduino AVR core reference, not from the emitter.  TRUSTED BASE.
 #pragma once
+#include <string.h>      // as the AVR core's Arduino.h does
 typedef unsigned char uint8_t;
 typedef unsigned int uint16_t;
 typedef unsigned long uint32_t;
